@@ -37,6 +37,7 @@ type FuncReport struct {
 	UsedSpecs  []string `json:"assumed_callee_contracts,omitempty"`
 	UsedExtern []string `json:"library_models,omitempty"`
 	Notes      []string `json:"notes,omitempty"`
+	Heaps      []string `json:"heaps_written,omitempty"`
 	NObl       int      `json:"obligations"`
 	EncodeS    float64  `json:"encode_s"`
 }
@@ -182,6 +183,7 @@ func Check(p *Program, opts CheckOpts) *Report {
 		r := VerifyFunc(p, fn)
 		fr.EncodeS = time.Since(t0).Seconds()
 		fr.Inlined, fr.UsedSpecs, fr.UsedExtern, fr.Notes = r.Inlined, r.UsedSpecs, r.UsedExtern, r.Notes
+		fr.Heaps = r.Heaps
 		for _, u := range r.UsedSpecs {
 			trusted[u] = true
 		}
